@@ -1077,6 +1077,9 @@ async fn spk_connect(cfg: &SpkCfg, idx: usize, bgp_port: u16, step: usize) -> Re
             }
         }
         if !established {
+            if std::env::var("VERIF_TRACE").is_ok() {
+                eprintln!("[spk_connect retry] {} port {} : {} (got open: {})", cfg.addr, my_port, last, daemon_open.is_some());
+            }
             // the previous session of this peer may not be cleaned up yet
             tokio::time::sleep(Duration::from_millis(5)).await;
             continue;
@@ -1907,6 +1910,22 @@ fn judge_station_c19(rep: &mut Report, ps: &mut Parsers, out: &Outcome, sti: usi
                     rep.count("unjudged:e2e-route-monitoring-without-peer-up");
                     if rep.params.flag("trace") {
                         eprintln!("[peer-msgs] {:?}", st.msgs.iter().enumerate().filter_map(|(i, (_, m))| match m { StMsg::PeerUp { hdr, rport, .. } => Some(format!("#{} up {} t{} rport {}", i, hdr.addr(), hdr.ptype, rport)), StMsg::PeerDown { hdr, reason, .. } => Some(format!("#{} down {} r{}", i, hdr.addr(), reason)), _ => None }).collect::<Vec<_>>());
+                        let mut hist: BTreeMap<String, (usize, usize, usize)> = BTreeMap::new();
+                        for (i, (_, m)) in st.msgs.iter().enumerate() {
+                            if let StMsg::Route { hdr, .. } = m {
+                                let e = hist.entry(format!("{} t{} f{:02x}", hdr.addr(), hdr.ptype, hdr.flags)).or_insert((i, i, 0));
+                                e.1 = i;
+                                e.2 += 1;
+                            }
+                        }
+                        eprintln!("[rm-hist first,last,count] {:?}", hist);
+                        eprintln!("[first msgs of this station] {:?}", st.msgs.iter().take(6).map(|(o, m)| match m { StMsg::Initiation => format!("@{} init", o), StMsg::PeerUp { hdr, .. } => format!("@{} up {}", o, hdr.addr()), StMsg::PeerDown { hdr, .. } => format!("@{} down {}", o, hdr.addr()), StMsg::Route { hdr, pdu } => format!("@{} rm {} f{:02x} len{}", o, hdr.addr(), hdr.flags, pdu.len()), StMsg::Other(t) => format!("@{} other {}", o, t) }).collect::<Vec<_>>());
+                        for (xi, x) in out.stations.iter().enumerate() {
+                            eprintln!("[station {} policy {} connect {}] {:?}", xi, policy_name(x.policy), x.connect_step, x.msgs.iter().enumerate().filter_map(|(i, (_, m))| match m { StMsg::PeerUp { hdr, rport, .. } => Some(format!("#{} up {} t{} rport {}", i, hdr.addr(), hdr.ptype, rport)), StMsg::PeerDown { hdr, reason, .. } => Some(format!("#{} down {} r{}", i, hdr.addr(), reason)), _ => None }).collect::<Vec<_>>());
+                        }
+                        for s in &out.sessions {
+                            eprintln!("[session] spk {} port {} up_step {} down {:?} model {} close {:?}", s.spk, s.my_port, s.up_step, s.down_step, s.model.len(), s.close.as_ref().map(|c| c.kind));
+                        }
                         eprintln!("[rm-without-peer-up] station #{} policy={} connect_step={} msg#{} peer={} flags={:02x} pdu={} prev={:?} steps={:?}", sti, pol, st.connect_step, mi, addr, hdr.flags, hex(&pdu[..pdu.len().min(60)]), st.msgs[mi.saturating_sub(3)..mi].iter().map(|(_, m)| match m { StMsg::PeerUp { hdr, .. } => format!("up {}", hdr.addr()), StMsg::PeerDown { hdr, .. } => format!("down {}", hdr.addr()), StMsg::Route { hdr, .. } => format!("rm {} {:02x}", hdr.addr(), hdr.flags), _ => "other".into() }).collect::<Vec<_>>(), out.steps);
                     }
                     continue;
